@@ -23,9 +23,16 @@ def replaceAt(string: str, index: int, ch: str) -> str:
 
 def process_inlines(tokens: list[Token], state: StateCore) -> None:
     stack: list[dict[str, Any]] = []
+    inside_autolink = 0
 
     for i, token in enumerate(tokens):
         thisLevel = token.level
+
+        if token.type == "link_open" and token.info == "auto":
+            inside_autolink += 1
+
+        if token.type == "link_close" and token.info == "auto":
+            inside_autolink -= 1
 
         j = 0
         for j in range(len(stack))[::-1]:
@@ -38,7 +45,8 @@ def process_inlines(tokens: list[Token], state: StateCore) -> None:
 
         stack = stack[: j + 1]
 
-        if token.type != "text":
+        if token.type != "text" or inside_autolink:
+            # the text of an autolink is its URL: leave it alone (as replacements does)
             continue
 
         text = token.content
